@@ -37,6 +37,10 @@ type config struct {
 	NodeBackend string `json:"node_storage_backend"`
 	State       string `json:"state,omitempty"`
 	Subst       string `json:"substitution,omitempty"`
+	// SubstLive: the refused (substituted) response is handled by the very
+	// credentials value that then handles the honest response, as a node that
+	// simply retries does; otherwise by a copy
+	SubstLive bool `json:"refused_response_handled_by_the_same_credentials_value,omitempty"`
 }
 
 var backends = map[string]vkit.Backend{"inmem": vkit.Inmem, "file": vkit.File, "storeonce": vkit.StoreOnce}
@@ -233,6 +237,9 @@ func enroll(t vkit.TB, c config, state, params *structpb.Struct, subst string) b
 		}
 		before := snapshotNode(victim)
 		cl := proto.Clone(victim.Creds).(*types.NodeCredentials)
+		if c.SubstLive {
+			cl = victim.Creds
+		}
 		_, herr := cl.HandleFetchNodeCredentialsResponse(w.Ctx, victim.Store, sub, handleOpts...)
 		if herr == nil {
 			return fail("substituted-response-accepted/"+subst, "the node accepted a response with substitution %q", subst)
@@ -376,6 +383,7 @@ func TestProp_Random(t *testing.T) {
 		params := vkit.GenStruct(t, "params")
 		c.State = fmt.Sprint(state != nil, params != nil)
 		c.Subst = rapid.SampledFrom(append([]string{""}, substs...)).Draw(t, "substitution")
+		c.SubstLive = c.Subst != "" && rapid.Bool().Draw(t, "refusedResponseOnLiveValue")
 		enroll(t, c, state, params, c.Subst)
 	})
 }
